@@ -381,7 +381,13 @@ func (an *Analysis) handleStructFields(typ *types.Struct, ctx context) []StructF
 		if field.Embedded() {
 			if st, isStruct := fieldType.(*Struct); isStruct {
 				log.Printf("gomacro: embedded struct field %s will be flattened", field.Name())
-				for _, inner := range st.Fields {
+				inners := st.Fields
+				// the embedded struct may still be under analysis (when it refers
+				// back to the current type): read its fields from the Go type
+				if under, ok := field.Type().Underlying().(*types.Struct); ok && len(inners) == 0 {
+					inners = an.handleStructFields(under, ctx)
+				}
+				for _, inner := range inners {
 					// a data-generation opt-out on the embedded struct applies to its fields
 					if tag.Get("gomacro-data") == "ignore" && inner.Tag.Get("gomacro-data") != "ignore" {
 						inner.Tag = reflect.StructTag(strings.TrimSpace(string(inner.Tag) + ` gomacro-data:"ignore"`))
